@@ -379,7 +379,7 @@ Call(e) ==
             IF ~auxOn /\ \A kd \in AuxKinds : auxs[c][kd] = <<>> THEN 0
             ELSE IF \E k2 \in Keys : BadJson(newDocs[c][k2]) THEN 0
             ELSE Cardinality({kd \in AuxKinds \ {"viewcount"} : na[c][kd] # ExpectedAux(kd, newDocs[c])
-                    /\ Fail(IF kd \in {"q-all", "q-v", "q-s"} THEN {"C19"} ELSE {"C12"}, e, <<"aux", kd, c>>,
+                    /\ Fail(IF kd \in {"q-all", "q-v", "q-s", "q-null"} THEN {"C19"} ELSE {"C12"}, e, <<"aux", kd, c>>,
                             BriefRows(ExpectedAux(kd, newDocs[c])), BriefRows(na[c][kd]))})
                  + F(CountOK(na[c]["viewcount"], newDocs[c]), {"C12"}, <<"aux", "viewcount", c>>, Len(ViewSeq(newDocs[c])), BriefRows(na[c]["viewcount"]))
         \* a freshly built view, and a view that is queried only every few steps (its index catches up over several
